@@ -337,6 +337,26 @@ def run_case(case, ctx):
             oracle.append("check() names %s, damaged by independent classification: %s" % (reported, bad))
         mops.append("check")
         itoks.append("check=" + ",".join(reported))
+        # a session that SEARCHES first (the index builder reads every state point) must not thereby accept a
+        # damaged one: afterwards opening by id still raises or yields a state point hashing to the id
+        srch = signac.Project(path)
+        try:
+            sorted(j.id for j in srch.find_jobs({"zz_no_such_key": {"$exists": False}}))   # may raise, may answer from the cache
+        except JobsCorruptedError:
+            pass
+        except Exception as e:  # noqa: BLE001
+            if not isinstance(e, (KeyError, ValueError)):
+                oracle.append("find_jobs over a damaged workspace raised %s" % exc_name(e))
+        for i in sorted(cls):
+            for what, fn in (("statepoint()", lambda: srch.open_job(id=i).statepoint()),
+                             ("cached_statepoint", lambda: dict(srch.open_job(id=i).cached_statepoint))):
+                try:
+                    v = plain(fn())
+                except Exception:  # noqa: BLE001
+                    continue
+                if ref_id(v) != i:
+                    oracle.append("after a filtered find_jobs in the same session, open_job(id=%s).%s returned %r whose hash is %s"
+                                  % (i, what, v, ref_id(v)))
         for i in sorted(cls):
             fresh = signac.Project(path)
             tok = None
